@@ -176,6 +176,8 @@ class Radio:
             return tuple(norm(i).key() for i in st.heap[v.ident].items)
         if isinstance(v, Bytes) and len(v.parts) == 1 and v.parts[0][0][0] == "const":
             return tuple(Const(b).key() for b in v.parts[0][0][1])
+        if isinstance(v, Bytes) and len(v.parts) == 1 and v.parts[0][0][0] == "items":
+            return tuple(v.parts[0][0][1])
         if isinstance(v, Bytes) and len(v.parts) == 1 and v.parts[0][0][0] == "reg":
             r = v.parts[0][0][1]
             return tuple(Sym(("reg", r, "byte", j), "int").key() for j in range(5))
